@@ -6,11 +6,13 @@ import (
 	"fmt"
 	"os"
 	"os/exec"
+	"path"
 	"path/filepath"
 	"reflect"
 	"strings"
 	"sync/atomic"
 
+	"verifharness/audit"
 	"verifharness/gen"
 	"verifharness/mc"
 )
@@ -146,7 +148,7 @@ func Run(r *mc.Run) {
 	r.Scenario("matrix-6x6", map[string]interface{}{
 		"compressions": comps, "control_entry_lists": controlEntrySets, "paragraph_models": []string{"minimal", "full", "custom"},
 		"data_file_sets": []string{"empty", "one file", "dir + file with binary bytes + empty file"}, "extras": extras, "layouts": []string{"canonical", "data-before-control"},
-		"quick_thinning": "quick: paragraph x data-set product in full only without extra member and in canonical layout; paired (i,i) otherwise; thorough: full product",
+		"quick_thinning":    "quick: paragraph x data-set product in full only without extra member and in canonical layout; paired (i,i) otherwise; thorough: full product",
 		"loads_per_package": map[bool]string{true: "ForEachMapOrder (" + MapOrderNote + ")", false: "2"}[orders],
 	}, len(shards), func(si int, st *mc.Stats) bool {
 		s := shards[si]
@@ -274,6 +276,9 @@ func Run(r *mc.Run) {
 	r.Scenario("sizes", map[string]interface{}{"sibling_before_control_bytes": sibSizes, "control_paragraph": []string{"~1.5 KiB", "~40 KiB", "~140 KiB"},
 		"combinations": "1.5 KiB paragraph x every sibling size; 40 KiB x {none, 512, 31000, 32768}; 140 KiB x {none, 31000}; each x 6 control encodings; data file of 1 MiB+17 (thorough also 3 MiB+511) x 6 data encodings",
 		"filler":       "gen.PatternBytes (incompressible)"}, len(szIns), func(i int, st *mc.Stats) bool { return runIns(r, "sizes", c, szIns[i:i+1], st) })
+
+	// ---- scenario 1d: alphabet audit (empty on the unchanged tree)
+	auditScenario(r, c, comps, ps, dfs)
 
 	// ---- scenario 2: rejections
 	pairs := [][2]string{{"none", "none"}, {"gz", "gz"}}
@@ -696,4 +701,133 @@ func interleaved(r *mc.Run, c *gen.DebCompressor, comps []string) {
 			}
 			return true
 		})
+}
+
+// auditScenario injects the literals a change introduced into the tree under test (harness/audit) into the package
+// model: new strings as control field names and values, ar member names, tar entry names; new integers (n-1, n, n+1)
+// as file sizes, numbers of extra members and dictionary / window sizes. The expected result is always the model.
+func auditScenario(r *mc.Run, c *gen.DebCompressor, comps []string, ps []paragraph, dfs [][]gen.TarEntry) {
+	r.Extra["alphabet_audit"] = audit.Evidence()
+	full := ps[1]
+	known := func(k string) bool {
+		for _, f := range full.fields {
+			if strings.EqualFold(f.Key, k) {
+				return true
+			}
+		}
+		return false
+	}
+	fieldNames := gen.AuditStrings(func(s string) bool {
+		ok := gen.Nameish(s) && !strings.ContainsAny(s, ".+") && s[0] != '-' && !known(s)
+		return ok
+	}, 6)
+	values := gen.AuditStrings(func(s string) bool { return gen.OneLine(s) && strings.TrimSpace(s) == s && !strings.HasPrefix(s, "#") }, 6)
+	members := gen.AuditStrings(func(s string) bool {
+		return len(s) <= 16 && gen.OneLine(s) && !strings.ContainsAny(s, " /\t") && s != "debian-binary"
+	}, 6)
+	entries := gen.AuditStrings(func(s string) bool {
+		return len(s) <= 90 && gen.OneLine(s) && !strings.HasPrefix(s, "/") && !strings.Contains(s, "..") && path.Clean("./"+s) != "control" && path.Clean("./"+s) != "."
+	}, 6)
+	sizes := gen.AuditInts(1, 4<<20, 9)
+	counts := gen.AuditInts(1, 64, 6)
+	dicts := gen.AuditInts(4096, 64<<20, 6)
+	if len(fieldNames)+len(values)+len(members)+len(entries)+len(sizes)+len(counts)+len(dicts) == 0 {
+		return
+	}
+	pairs := [][2]string{{"gz", "gz"}, {"none", "none"}}
+	if has(comps, "xz") && has(comps, "zst") {
+		pairs = append(pairs, [2]string{"xz", "zst"})
+	}
+	var ins []In
+	withField := func(p paragraph, key, val string, pos int) paragraph {
+		q := p
+		q.fields = append(append(append([]gen.DebField(nil), p.fields[:pos]...), gen.DebField{Key: key, Value: val}), p.fields[pos:]...)
+		return q
+	}
+	for _, pr := range pairs {
+		for _, k := range fieldNames {
+			// "1" is a valid string, integer, version, architecture word and dependency at once
+			for _, pos := range []int{3, len(full.fields) - 1, len(full.fields)} {
+				in := mkIn(withField(full, k, "1", pos), controlEntrySets[2], dfs[1], pr[0], pr[1], "", "")
+				in.Name = fmt.Sprintf("audit: further field %q at position %d, %s/%s", k, pos, pr[0], pr[1])
+				ins = append(ins, in)
+			}
+			for _, v := range values {
+				in := mkIn(withField(full, k, v, len(full.fields)), controlEntrySets[0], dfs[1], pr[0], pr[1], "", "")
+				in.Name = fmt.Sprintf("audit: further field %q: %q, %s/%s", k, v, pr[0], pr[1])
+				in.Verdict = "lenient" // the change may have given the new field a type this value does not fit
+				ins = append(ins, in)
+			}
+		}
+		for _, v := range values {
+			q := full
+			q.fields = append([]gen.DebField(nil), full.fields...)
+			for i := range q.fields {
+				if q.fields[i].Key == "Section" || q.fields[i].Key == "Homepage" {
+					q.fields[i].Value = v
+				}
+			}
+			q.exp.Section, q.exp.Homepage = v, v
+			in := mkIn(q, controlEntrySets[2], dfs[1], pr[0], pr[1], "", "")
+			in.Name = fmt.Sprintf("audit: Section and Homepage = %q, %s/%s", v, pr[0], pr[1])
+			ins = append(ins, in)
+		}
+		for _, m := range members {
+			for pos := 0; pos <= 3; pos++ {
+				in := mkIn(full, controlEntrySets[2], dfs[2], pr[0], pr[1], "", "")
+				in.SecondName, in.SecondPos = m, pos
+				in.Orders = true
+				in.Verdict = "must-load"
+				if pos == 0 || strings.HasPrefix(m, "control.") || strings.HasPrefix(m, "data.") || m == in.Model.ControlName() || m == in.Model.DataName() {
+					in.Verdict = "lenient"
+				}
+				in.Name = fmt.Sprintf("audit: further member %q at position %d, %s/%s", m, pos, pr[0], pr[1])
+				ins = append(ins, in)
+			}
+		}
+		for _, e := range entries {
+			es := []string{"./" + e, "./control"}
+			in := mkIn(full, es, append([]gen.TarEntry{{Name: "./" + e, Body: []byte("audit entry\n")}}, dfs[1]...), pr[0], pr[1], "", "")
+			in.Name = fmt.Sprintf("audit: tar entry %q before ./control and in the payload, %s/%s", "./"+e, pr[0], pr[1])
+			ins = append(ins, in)
+		}
+		for _, n := range sizes {
+			in := mkIn(bigParagraph("medium(1.5KiB)", 1500), []string{"./md5sums", "./control"}, []gen.TarEntry{{Name: "./audit-sized-file", Fill: int(n)}, {Name: "./after", Body: []byte("x")}}, pr[0], pr[1], "", "")
+			in.Model.EntrySizes = map[string]int{"./md5sums": int(n)}
+			in.Name = fmt.Sprintf("audit: sibling before ./control and a data file of %d bytes, %s/%s", n, pr[0], pr[1])
+			ins = append(ins, in)
+			q := bigParagraph(fmt.Sprintf("description(%d)", n), int(n))
+			if n <= 256<<10 {
+				in := mkIn(q, controlEntrySets[0], dfs[1], pr[0], pr[1], "", "")
+				in.Name = fmt.Sprintf("audit: Description of about %d bytes, %s/%s", n, pr[0], pr[1])
+				ins = append(ins, in)
+			}
+		}
+	}
+	for _, n := range counts {
+		in := mkIn(full, controlEntrySets[2], dfs[2], "gz", "gz", "", "")
+		in.ExtraCount = int(n)
+		in.Name = fmt.Sprintf("audit: %d further underscore members", n)
+		ins = append(ins, in)
+	}
+	for _, n := range dicts {
+		vs := []string{}
+		if has(comps, "xz") {
+			vs = append(vs, fmt.Sprintf("xz:dict=%d", n))
+		}
+		if has(comps, "zst") && n&(n-1) == 0 && n >= 1024 {
+			vs = append(vs, fmt.Sprintf("zst:window=%d", n))
+		}
+		for _, v := range vs {
+			for _, pr := range [][2]string{{v, v}, {v, "gz"}, {"gz", v}} {
+				in := mkIn(full, controlEntrySets[2], dfs[2], pr[0], pr[1], "", "")
+				in.Name = fmt.Sprintf("audit: dictionary / window of %d bytes, %s/%s", n, pr[0], pr[1])
+				ins = append(ins, in)
+			}
+		}
+	}
+	MapOrderBound = 1
+	r.Scenario("alphabet-audit", map[string]interface{}{"field_names": fieldNames, "values": values, "member_names": members, "tar_entry_names": entries,
+		"file_sizes": sizes, "extra_member_counts": counts, "dictionary_sizes": dicts, "compression_pairs": pairs}, len(ins),
+		func(i int, st *mc.Stats) bool { return runIns(r, "alphabet-audit", c, ins[i:i+1], st) })
 }
